@@ -23,9 +23,9 @@ type KeyLine struct {
 	N     map[string]int64 `json:"n"` // integer atoms (< 2^31)
 	Bytes []int            `json:"bytes"`
 	// identifier functions only: what the splitting function returned for `bytes`
-	Split map[string]int64 `json:"split,omitempty"`
+	Split  map[string]int64 `json:"split,omitempty"`
 	SplitA map[string][]int `json:"splita,omitempty"`
-	Err   bool             `json:"err"`
+	Err    bool             `json:"err"`
 }
 
 func ints(b []byte) []int {
